@@ -4,6 +4,7 @@ import (
 	"context"
 	"errors"
 	"fmt"
+	ros "github.com/risor-io/risor/os"
 	goos "os"
 	"path/filepath"
 	"sort"
@@ -248,7 +249,27 @@ func runC03(rc *fw.RunCtx) {
 		rc.Hit("importer_local")
 		imp = importer.NewLocalImporter(importer.LocalImporterOptions{GlobalNames: cfgNames, SourceDir: c03ModuleDir(sfs.Files), Extensions: []string{".risor", ".rsr"}})
 	}
-	opts = append(opts, risor.WithOS(sos), risor.WithImporter(imp))
+	if f.Chance(1, 8) {
+		// risor's own VirtualOS (over an in-memory filesystem, configured as
+		// little as possible) instead of the simulated OS, and a script that
+		// touches the standard streams
+		rc.Hit("os_virtual")
+		mfs := ros.NewMockFS()
+		mfs.MkdirAll("/simroot/work", 0o755)
+		mfs.WriteFile("/simroot/work/a.txt", []byte("alpha"), 0o644)
+		vos := ros.NewVirtualOS(context.Background(), ros.WithCwd("/simroot/work"),
+			ros.WithMounts(map[string]*ros.Mount{"/": {Source: mfs, Target: "/", Type: "mem"}}), ros.WithExitHandler(func(int) {}))
+		src += "\n" + []string{
+			"try(func() { os.stderr.write(\"e\") }, func(e) { return 0 })",
+			"try(func() { os.stdout.write(\"o\") }, func(e) { return 0 })",
+			"try(func() { return os.stdin.read() }, func(e) { return 0 })",
+			"spawn(func() { return try(func() { os.stderr.write(\"t\") }, func(e) { return 0 }) }).wait()",
+			"se := os.stderr\nso := os.stdout",
+		}[f.Intn(5)] + "\n"
+		opts = append(opts, risor.WithOS(vos), risor.WithImporter(imp))
+	} else {
+		opts = append(opts, risor.WithOS(sos), risor.WithImporter(imp))
+	}
 	if f.Chance(1, 2) {
 		n := 1 + f.Intn(3)
 		for i := 0; i < n; i++ {
